@@ -1,6 +1,8 @@
 package c20
 
 import (
+	"encoding"
+	"encoding/json"
 	"fmt"
 	"reflect"
 	"regexp"
@@ -19,10 +21,22 @@ const (
 	shOnlyM
 	shOnlyU
 	shNone
+	shIface // T is an interface type (Both); values are *P or a nil interface
 	numShapes
 )
 
-var shapeNames = [...]string{"V(value marshalers, pointer unmarshalers)", "*P(pointer type)", "OnlyM", "OnlyU", "None"}
+// Both is an interface-typed T: the helpers are generic over any T, and a case of such a
+// list may carry a nil interface value.
+type Both interface {
+	encoding.TextMarshaler
+	encoding.BinaryMarshaler
+	json.Marshaler
+	encoding.TextUnmarshaler
+	encoding.BinaryUnmarshaler
+	json.Unmarshaler
+}
+
+var shapeNames = [...]string{"V(value marshalers, pointer unmarshalers)", "*P(pointer type)", "OnlyM", "OnlyU", "None", "Both(interface-typed T holding *P or nil)"}
 var helperNames = [...]string{"MarshalText", "UnmarshalText", "MarshalBinary", "UnmarshalBinary", "MarshalJSON", "UnmarshalJSON"}
 
 // listSpec is one helper invocation.
@@ -40,7 +54,7 @@ func (ls listSpec) helper() string { return helperNames[ls.enc*2+ls.dir] }
 // hasInterface: does the shape implement the interface this helper needs?
 func (ls listSpec) hasInterface() bool {
 	switch ls.shape {
-	case shV, shP:
+	case shV, shP, shIface:
 		return true
 	case shOnlyM:
 		return ls.dir == dirMarshal
@@ -100,6 +114,10 @@ func unsatisfied(dir int, c caseSpec) bool {
 	}
 	if c.nilValue && dir == dirUnmarshal {
 		// no decoded value can equal a nil pointer
+		return true
+	}
+	if c.nilIface {
+		// a nil interface value can neither be marshaled nor be the target of a decode
 		return true
 	}
 	return c.beh != bRight
@@ -193,7 +211,7 @@ type recHelper[T any] struct{ l *listRun }
 
 func (h recHelper[T]) New(value T) T {
 	h.l.events = append(h.l.events, event{"typehelper.New", h.l.lastSeen})
-	if t := reflect.TypeOf(value); t.Kind() == reflect.Ptr {
+	if t := reflect.TypeOf(value); t != nil && t.Kind() == reflect.Ptr {
 		return reflect.New(t.Elem()).Interface().(T)
 	}
 	var z T
@@ -201,6 +219,9 @@ func (h recHelper[T]) New(value T) T {
 }
 
 func isZero(v interface{}) bool {
+	if v == nil {
+		return true
+	}
 	rv := reflect.ValueOf(v)
 	if rv.Kind() == reflect.Ptr {
 		if rv.IsNil() {
@@ -291,6 +312,13 @@ func execList(ls listSpec, keepMsgs bool) (l *listRun, escaped interface{}) {
 			runEnc(l, ls, func(i int, c caseSpec) OnlyU { return OnlyU{i + 1, c.payload} })
 		case shNone:
 			runEnc(l, ls, func(i int, c caseSpec) None { return None{i + 1, c.payload} })
+		case shIface:
+			runEnc(l, ls, func(i int, c caseSpec) Both {
+				if c.nilIface {
+					return nil
+				}
+				return &P{i + 1, c.payload}
+			})
 		}
 	}
 	if ls.goexit {
@@ -381,6 +409,20 @@ func normalise(ls *listSpec) {
 		}
 		if c.nilValue && (ls.shape != shP || ls.dir != dirUnmarshal) {
 			c.nilValue = false
+		}
+		if c.nilIface {
+			if ls.shape != shIface || i == 0 {
+				// on the first case a nil interface value is indistinguishable from a type
+				// lacking the interface (the type check looks at it)
+				c.nilIface = false
+			} else {
+				// unambiguous only without an expected error; the call never reaches a
+				// scripted method, so a passing Before hook marks the case
+				c.pred = pNone
+				if c.before == hAbsent {
+					c.before = hPass
+				}
+			}
 		}
 		if c.isPanic() && (c.pred == pSuffixMet || c.pred == pExactMet) {
 			// the complete text of a recovered panic includes a stack trace
